@@ -156,7 +156,7 @@ func c18() *core.Check {
 		}
 		// literals glued to the token before them (number, hex, closing bracket,
 		// operator, another literal, comment) without white space
-		us = append(us, gen.RangeUnits("glue", uint64(len(c18Glue)*341), 6000, "")...)
+		us = append(us, gen.RangeUnits("glue", uint64((len(c18Glue)+len(c18GlueLetters))*341), 6000, "")...)
 		us = append(us, gen.RangeUnits("dglue", uint64(len(c18Glue)*3*341), 6000, "")...)
 		// literals behind SQL words that introduce special literal syntax elsewhere
 		// (ESCAPE, UESCAPE, DELIMITER, date / interval / charset introducers)
@@ -260,7 +260,7 @@ func c18() *core.Check {
 			case "glue":
 				var buf []byte
 				for i := u.Lo; i < u.Hi; i++ {
-					pre := c18Glue[i/341]
+					pre := append(append([]string{}, c18Glue...), c18GlueLetters...)[i/341]
 					buf = enumUpTo4(alpha4('\''), i%341, buf)
 					for fi, f := range litForms {
 						if f.opener == "" || !strings.ContainsAny(f.opener[:1], "'\"`@") {
@@ -268,6 +268,12 @@ func c18() *core.Check {
 						}
 						if strings.ContainsAny(pre, "'\"`") {
 							continue // a quote right before the opener would pair up with it
+						}
+						if isLetter(pre[len(pre)-1]) || pre[len(pre)-1] == '&' {
+							// string-prefix letters in front of the OTHER quote kinds (u&"..", n"..")
+							if f.opener != "\"" {
+								continue // a back quote continues a word; the single quote has its own prefixed forms
+							}
 						}
 						body := strings.ReplaceAll(strings.ReplaceAll(strings.ReplaceAll(string(buf), "\"", "\x01"), "'", string([]byte{f.delim})), "\x01", otherQuote(f.delim))
 						emit(core.Case{In: pre + f.opener + body, Kind: "quoted", A: int64(len(pre) + len(f.opener)), C: int64(fi)})
@@ -474,6 +480,9 @@ func c18() *core.Check {
 
 // tokens that end on their own, so that a literal opener glued to them starts a new token
 var c18Glue = []string{"1", "0x1F", "1.5", "1e5", ".5", "1)", "1=", "1+", "1,", "(", ";", "}", "0b1", "1\n", "1\r\n", "1\t", "/**/", "'b'", "\"b\"", "`b`", "1.", "0X1f", "1e+5", "1 or 1"}
+
+// string-prefix letters, tried in front of the quote kinds they do not belong to
+var c18GlueLetters = []string{"u&", "U&", "n", "N", "e", "x", "b", "nq", "_utf8", "select u&", "1 or U&"}
 
 // enumUpTo4: the i-th word of length 0..4 over a four-letter alphabet (341 words).
 func enumUpTo4(al []string, i uint64, buf []byte) []byte {
